@@ -202,7 +202,11 @@ def retryLoop (cfg : RetryCfg) (fr : Frame) (inner : Frame → Body) (fuel : Nat
       | some b => (b.num?).getD ⟨2, 0, false⟩
       | none => ⟨2, 0, false⟩
     | _ => ⟨2, 0, false⟩
-  match sleepNums sleepV, jrcV.num? with
+  let listOk := match sleepV, kind with
+    | .list _, .fixed | .list _, .jitter => true
+    | .list _, _ => false
+    | _, _ => true
+  match (if listOk then sleepNums sleepV else none), jrcV.num? with
   | some (sl, lst), some jrc =>
     let bo := mkBackoff kind sl lst maxSleep jrc base
     let maxR : Except Exc (Option Nat) := match cfg.max with
